@@ -9,7 +9,7 @@ From SFC.GenTax Require Import Tax Dividends TaxProofs DividendProofs.
 From SFC.GenMarket Require PropMarket.
 From SFC.GenTax Require PropTax.
 From SFC.GenAsset Require PropAsset.
-From SFC.GenMain Require Import Program Classes Main Ledger MainProofs Names Conflict.
+From SFC.GenMain2 Require Import Program Classes Main Ledger MainProofs Names Conflict.
 Import ListNotations.
 Local Open Scope string_scope.
 Local Open Scope list_scope.
